@@ -124,6 +124,8 @@ def subdiff_task(T, tag):
         oe = sym.lift(o)
         if dom is not True:
             cases.append(('finite-only-if-feasible', [], dom))
+        if T.prop == 'C04':
+            return cases                  # C04: the score is +inf exactly at infeasible points (the distance formula is C08's)
         for k, (guard, lo, hi) in enumerate(pieces):
             cases.append((f'distance[piece{k}]', [guard] + ([] if dom is True else [dom]) + aux,
                           oe == S.dist_to_interval(-g, lo, hi)))
@@ -137,7 +139,9 @@ def subdiff_task(T, tag):
 
 
 for _c in ALL:
-    add_task(['C08'], f'{_c.module.split(".")[-1]}:{_c.tag}.subdiff_distance', subdiff_task, tag=_c.tag)
+    _constrained = ('positive=True' in _c.tag) or _c.cls in ('IndicatorBox', 'PositiveConstraint')
+    add_task(['C08', 'C04'] if _constrained else ['C08'], f'{_c.module.split(".")[-1]}:{_c.tag}.subdiff_distance', subdiff_task,
+             tag=_c.tag)
 
 
 def fixpoint_task(T, tag):
@@ -318,6 +322,8 @@ def block_subdiff_task(T, cls):
 
     def post(out, p):
         oe = sym.lift(out[0])
+        if T.prop == 'C20':
+            return []                     # C20: only `no IndexError on any path` (raised as a failed no-exception obligation)
         cases = []
         for k, (guard, lo, hi) in enumerate(pieces):
             gz = guard if isinstance(guard, z3.ExprRef) else z3.BoolVal(bool(guard))
@@ -345,7 +351,7 @@ def block_subdiff_task(T, cls):
 
 
 for _k in BLOCK_SUB:
-    add_task(['C08'], f'block_separable:{_k}.subdiff_distance', block_subdiff_task, cls=_k)
+    add_task(['C08', 'C20'], f'block_separable:{_k}.subdiff_distance', block_subdiff_task, cls=_k)
 
 
 def replay_block_subdiff(args, model):
